@@ -22,6 +22,7 @@ mod handenum;
 mod trunc;
 mod mpart;
 pub mod deep;
+pub mod rescycle;
 pub mod wire;
 pub mod xmatrix;
 
@@ -77,6 +78,7 @@ fn run_inner(name: &str, tier: &str) -> Option<Value> {
         "trunc" => trunc::run(tier).to_json(),
         "mpart" => mpart::run(tier).to_json(),
         "deep" => deep::run(tier).to_json(),
+        "rescycle" => rescycle::run(tier).to_json(),
         _ => return None,
     })
 }
